@@ -1,5 +1,5 @@
 (* C17 model driver.  One case per line:
-   kB temp tol tau damping dt tsf lower upper rlo rup width per P ctr same sub restart rx rv xsaved it0 n {step x fb fba rnd running}*n
+   kB temp tol tau damping dt tsf lower upper rlo rup width per P ctr same sub restart(0|1|2: 2 = state without extended values) rx rv xsaved it0 n {step x fb fba rnd running}*n
    EVERY engine step is given (relative step numbers; it0 = absolute step of relative step 0); the model decides which are awake.
    Output: "k m gamma sigma refused valid" (refused: the restart consistency check rejects the first input) then for every step " | err x_rep v_rep epot ekin ft fr f energy x_ext v_ext saved_x saved_v awake". *)
 open Model
@@ -21,7 +21,7 @@ let () =
         let rlo = nb () in let rup = nb () in let width = nf () in
         let per = nb () in let pp = nf () in let ctr = nf () in
         let same = nb () in let sub = nb () in
-        let restart = nb () in let rx = nf () in let rv = nf () in let xsaved = nf () in
+        let restart_i = ni () in let restart = restart_i <> 0 in let restart2 = restart_i = 2 in let rx = nf () in let rv = nf () in let xsaved = nf () in
         let it0 = ni () in
         let n = ni () in
         let c = { c_kB = kB; c_temp = temp; c_tol = tol; c_tau = tau; c_damping = damping; c_dt = dt;
@@ -29,7 +29,7 @@ let () =
                   c_width = width; c_period = (if per then Some (pp, ctr) else None);
                   c_same_step = same; c_subtract = sub } in
         let prm = init_params fops pi c in
-        let s0 = if restart then restart_state fops rx rv else init_state fops in
+        let s0 = if restart2 then restart_state_opt fops None else if restart then restart_state fops rx rv else init_state fops in
         let ins = List.init n (fun _ ->
           let st = ni () in let x = nf () in let fb = nf () in let fba = nf () in let rnd = nf () in let run = nb () in
           { i_step = z_of_int st; i_x = x; i_fb = fb; i_fba = fba; i_rnd = rnd; i_running = run }) in
@@ -40,7 +40,7 @@ let () =
         Buffer.add_string b (Printf.sprintf " %d" (if valid_config fops c then 1 else 0));
         List.iter2 (fun i s ->
           let xe = match s.s_x_ext with Some x -> x | None -> nan in
-          let (sx, sv) = saved_xv fops s i.i_step in
+          let (sx, sv) = match saved_xv_opt fops s i.i_step with Some (a, b) -> (a, b) | None -> (nan, nan) in
           Buffer.add_string b (Printf.sprintf " | %d %s %s %s %s %s %s %s %s %s %s %s %s %d" (if s.s_err then 1 else 0)
             (hex s.s_x_rep) (hex s.s_v_rep) (hex s.s_epot) (hex s.s_ekin) (hex s.s_ft_rep) (hex s.s_fr) (hex s.s_f)
             (hex (menergy fops c (z_of_int it0) i s)) (hex xe) (hex s.s_v_ext) (hex sx) (hex sv)
